@@ -1074,6 +1074,11 @@ SDcreate(int32       fid,  /* IN: file ID */
         HGOTO_ERROR(DFE_ARGS, FAIL);
     }
 
+    /* nothing of this would reach a file that is open for reading only */
+    if (!(handle->flags & NC_RDWR)) {
+        HGOTO_ERROR(DFE_DENIED, FAIL);
+    }
+
     /* fudge the name since its optional */
     if ((name == NULL) || (name[0] == ' ') || (name[0] == '\0'))
         name = "DataSet";
@@ -1308,6 +1313,11 @@ SDsetdimname(int32       id, /* IN: dataset ID */
         HGOTO_ERROR(DFE_ARGS, FAIL);
     }
 
+    /* nothing of this would reach a file that is open for reading only */
+    if (!(handle->flags & NC_RDWR)) {
+        HGOTO_ERROR(DFE_DENIED, FAIL);
+    }
+
     /* get the dimension structure */
     dim = SDIget_dim(handle, id);
     if (dim == NULL) {
@@ -1496,6 +1506,11 @@ SDsetrange(int32 sdsid, /* IN: dataset ID */
         HGOTO_ERROR(DFE_ARGS, FAIL);
     }
 
+    /* nothing of this would reach a file that is open for reading only */
+    if (!(handle->flags & NC_RDWR)) {
+        HGOTO_ERROR(DFE_DENIED, FAIL);
+    }
+
     var = SDIget_var(handle, sdsid);
     if (var == NULL) {
         HGOTO_ERROR(DFE_ARGS, FAIL);
@@ -1663,6 +1678,11 @@ SDsetattr(int32       id,    /* IN: object ID */
     /* still no handle ? */
     if (handle == NULL) {
         HGOTO_ERROR(DFE_ARGS, FAIL);
+    }
+
+    /* nothing of this would reach a file that is open for reading only */
+    if (!(handle->flags & NC_RDWR)) {
+        HGOTO_ERROR(DFE_DENIED, FAIL);
     }
 
     /* hand over to SDIputattr */
@@ -2007,6 +2027,11 @@ SDsetdatastrs(int32       sdsid, /* IN: dataset ID */
         HGOTO_ERROR(DFE_ARGS, FAIL);
     }
 
+    /* nothing of this would reach a file that is open for reading only */
+    if (!(handle->flags & NC_RDWR)) {
+        HGOTO_ERROR(DFE_DENIED, FAIL);
+    }
+
     if (handle->vars == NULL) {
         HGOTO_ERROR(DFE_ARGS, FAIL);
     }
@@ -2079,6 +2104,11 @@ SDsetcal(int32   sdsid, /* IN: dataset ID */
         HGOTO_ERROR(DFE_ARGS, FAIL);
     }
 
+    /* nothing of this would reach a file that is open for reading only */
+    if (!(handle->flags & NC_RDWR)) {
+        HGOTO_ERROR(DFE_DENIED, FAIL);
+    }
+
     if (handle->vars == NULL) {
         HGOTO_ERROR(DFE_ARGS, FAIL);
     }
@@ -2141,6 +2171,11 @@ SDsetfillvalue(int32 sdsid, /* IN: dataset ID */
     handle = SDIhandle_from_id(sdsid, SDSTYPE);
     if (handle == NULL) {
         HGOTO_ERROR(DFE_ARGS, FAIL);
+    }
+
+    /* nothing of this would reach a file that is open for reading only */
+    if (!(handle->flags & NC_RDWR)) {
+        HGOTO_ERROR(DFE_DENIED, FAIL);
     }
 
     if (handle->vars == NULL) {
@@ -2549,6 +2584,11 @@ SDsetdimstrs(int32       id, /* IN: dimension ID */
         HGOTO_ERROR(DFE_ARGS, FAIL);
     }
 
+    /* nothing of this would reach a file that is open for reading only */
+    if (!(handle->flags & NC_RDWR)) {
+        HGOTO_ERROR(DFE_DENIED, FAIL);
+    }
+
     /* get the dimension structure */
     dim = SDIget_dim(handle, id);
     if (dim == NULL) {
@@ -2674,6 +2714,11 @@ SDsetdimscale(int32 id,    /* IN: dimension ID */
     handle = SDIhandle_from_id(id, DIMTYPE);
     if (handle == NULL) {
         HGOTO_ERROR(DFE_ARGS, FAIL);
+    }
+
+    /* nothing of this would reach a file that is open for reading only */
+    if (!(handle->flags & NC_RDWR)) {
+        HGOTO_ERROR(DFE_DENIED, FAIL);
     }
 
     /* get the dimension structure */
